@@ -34,9 +34,6 @@ SORTS = {"sort", "sort_by", "sort_by_key", "sort_unstable", "sort_unstable_by", 
 # Hand-confirmed order-free sites that the generic classifier cannot see through.
 # key = "<function>|<entry text>" ; one line of reason each.
 LEDGER = {
-    "compiler::go::dce::prune_dead_functions|called_functions_in_fn(f,&fn_names)":
-        "work-list of a reachability closure: every popped name is inserted into the HashSet `reachable`; the final "
-        "result is that set (membership filter over the ordered toplevels), independent of visiting order",
     "compiler::typer::name_resolution::ConstructorIndex::unique_enum_for_variant|enums":
         "unique-or-none: returns Some(name) only when exactly one entry matches and None on a second hit, so the "
         "result does not depend on which match is met first",
@@ -351,6 +348,61 @@ def classify(cx, rel, node, crate, fninfo):
         return "ordered", f"flows into {k}"
 
 
+def worklist_of(cx, rel, fn_, target, crate):
+    """the Vec a hash-ordered iteration feeds is the work list of a closure computation: a local that is only pushed / extended and
+    popped by one `while let Some(x) = W.pop()` loop whose body changes nothing but hash/BTree state and W itself.  The order in which
+    such a list is filled changes the order of visits, not what is visited.  Returns (name, why) or (None, why-not)."""
+    if fn_ is None or fn_.body is None:
+        return None, "no enclosing function"
+    par = cx.parents(rel)
+    # the Vec: receiver of the push / extend that contains the hash-ordered expression (directly or in a for-loop over it)
+    W = None
+    for a in [target] + list(par.ancestors(target)):
+        if a["k"] == "MethodCall" and a["method"] in ("extend", "append") and a["recv"]["k"] == "Path" and len(a["recv"]["segs"]) == 1:
+            W = a["recv"]["segs"][0]
+            break
+        if a["k"] == "For" and S.span_contains(a["iter"]["sp"], target["sp"]):
+            pushes = [c for c in S.walk(a["body"]) if c["k"] == "MethodCall" and c["method"] == "push" and c["recv"]["k"] == "Path" and len(c["recv"]["segs"]) == 1]
+            names = {c["recv"]["segs"][0] for c in pushes}
+            if len(names) == 1:
+                W = names.pop()
+            break
+        if a["k"] in ("Fn", "Closure"):
+            break
+    if W is None:
+        return None, "no single Vec is fed"
+    decl = [l for l in S.find(fn_.body, "Local") if l["pat"]["k"] in ("PIdent", "PType") and W in S.pat_bindings(l["pat"])]
+    if len(decl) != 1:
+        return None, f"`{W}` is not one local of the function"
+    loops = [w for w in S.find(fn_.body, "While") if w["cond"]["k"] == "Let" and w["cond"]["expr"]["k"] == "MethodCall" and
+             w["cond"]["expr"]["method"] == "pop" and S.is_path(w["cond"]["expr"]["recv"], W)]
+    if len(loops) != 1:
+        return None, f"`{W}` is not drained by one `while let Some(..) = {W}.pop()` loop"
+    for u in S.walk(fn_.body):
+        if u["k"] == "Path" and u["segs"] == [W]:
+            up = par.parent(u)
+            if up is not None and up["k"] == "MethodCall" and up.get("recv") is u and up["method"] in ("push", "extend", "append", "pop", "is_empty", "len"):
+                continue
+            if up is not None and up["k"] == "Ref" and (par.parent(up) or {}).get("k") == "MethodCall":
+                continue
+            return None, f"`{W}` is used other than as a stack (line {u['sp'][0]})"
+    eff = [e for e in effects_in_span(cx, rel, loops[0]["body"]["sp"], crate) if "Vec" not in e[0] or not re.search(r"::(push|extend|append|pop)\(", e[0])]
+    # pushes onto a Vec inside the loop are the work list itself only if W is the only ordered container that grows there
+    for c in S.walk(loops[0]["body"]):
+        if c["k"] == "MethodCall" and c["method"] in ("push", "extend", "append", "insert", "push_str", "push_back", "push_front", "extend_from_slice") and \
+                not S.is_path(c["recv"], W):
+            recs = cx.mir.at(rel, c["sp"][0], c["sp"][1], c["method"])
+            tys = {re.sub(r"^&('[a-z_]+ )?mut ", "", r["args"][0]) for r in recs if r["args"]}
+            if not tys or not all(cx.all_hash_state(t, crate) for t in tys):
+                return None, f"the draining loop also fills `{cx.text(rel, c['recv'])[:30]}` in visiting order (line {c['sp'][0]})"
+    if eff:
+        return None, f"the draining loop performs another ordered effect: {eff[0][0]} (line {eff[0][1]})"
+    sel = selecting_exits(loops[0]["body"])
+    if sel:
+        return None, f"the draining loop selects by order: {sel[0][0]} (line {sel[0][1]})"
+    return W, f"`{W}` is the work list of a closure computation: only pushed and popped, and the draining loop changes hash/BTree state only"
+
+
 def entry_key(cx, rel, node, fninfo, what):
     fq = fninfo.qual if fninfo else rel
     return f"{fq}|{what}"
@@ -444,6 +496,10 @@ def r13_1(run, cx):
         lkey = f"{fn_.qual if fn_ else rel}|{what}"
         verdict, sink = classify(cx, rel, target, crate, fn_)
         ledger_reason = None
+        if verdict == "ordered":
+            wl, why = worklist_of(cx, rel, fn_, target, crate)
+            if wl is not None:
+                verdict, sink = "free", why
         if verdict == "ordered":
             for lk, reason in LEDGER.items():
                 if lkey.startswith(lk):
